@@ -18,7 +18,7 @@ def _outcome(ex, viol, step, nontrivial, extra=None, trace_digest=None):
 
 
 def case_from_json(j):
-    if "chain" in j or "cyclic" in j or "collide" in j:
+    if "chain" in j or "cyclic" in j or "collide" in j or "subscript" in j:
         return j
     return {"cfg": j["cfg"], "spec": j["spec"], "ops": [tuplify(o) for o in j["ops"]],
             **{k: tuplify(v) for k, v in j.items() if k not in ("cfg", "spec", "ops")}}
@@ -98,6 +98,8 @@ class C01:
             return exec_cyclic(ctx, case, prop)
         if "collide" in case:
             return exec_collide(ctx, case, prop)
+        if "subscript" in case:
+            return exec_subscript(ctx, case, prop)
         spec = Spec.from_json(case["spec"])
         cfg = case["cfg"]
         ex = Exec(ctx.xd, spec, cfg["g_restricted"], cfg["salt"])
@@ -200,6 +202,8 @@ class C02(C01):
             return gen_chain_case(ctx, run, "C02")
         if run % 200 == 29:
             return gen_collide_case(ctx, run, "C02")    # two triggered task ids with colliding hashes: both run
+        if run % 100 == 41:
+            return gen_subscript_case(ctx, run, "C02")  # an assignment made through a reference-valued subscript
         return gen_history_case(ctx, run, "C02", frozen_windows=True)
 
     @staticmethod
@@ -2034,6 +2038,94 @@ def exec_cyclic(ctx, case, prop):
 # ---------------------------------------------------------------------------
 # dedicated scenario: two task ids whose (32-bit, compiled build) hashes collide, in one propagation
 # ---------------------------------------------------------------------------
+def gen_subscript_case(ctx, run, prop):
+    r = rng_for(ctx.seed, prop, run, "subscript")
+    salt = "".join(r.choice("abcdefghijklmnopqrstuvwxyz") for _ in range(3))
+    n = r.randint(3, 6)
+    return {"subscript": {"salt": salt, "n": n, "k1": r.randrange(n), "k2": r.randrange(n), "v1": r.choice([5.0, -2.5, 7.0]),
+                          "v2": r.choice([1.5, 9.0, -4.0]), "order": r.sample(range(6), 6), "first": r.choice(["other", "same"])}}
+
+
+def exec_subscript(ctx, case, prop):
+    """An assignment made THROUGH a reference-valued subscript: a.g.vals[<ref>] = v.  The assigned location is the element
+    the subscript selects at that moment; the tasks to run are those that depend on it or on a container enclosing it
+    (vals, g).  A task that depends only on the subscript is not among them.  Two assignments: the subscript lives in
+    another top-level container ('other'), or in the same group g as the list ('same': then it is inside an enclosing
+    container and its readers do belong to the set)."""
+    sc = case["subscript"]
+    xd = ctx.xd
+    from ..containers import SimDict, SimList
+    salt = sc["salt"]
+    mgr = xd.Manager()
+    vals = SimList([float(i) for i in range(sc["n"])])
+    g = SimDict([("vals", vals), ("idx", sc["k2"]), ("other", 2.0)])
+    a = SimDict([("g", g), ("s", 0.0), ("f", 0.0), ("w", 0.0), ("z", 0.0)])
+    b = SimDict([("idx", sc["k1"]), ("t", 0.0)])
+    ra, rb = mgr.ref(a, "a" + salt), mgr.ref(b, "b" + salt)
+    ran = []
+    defs = [
+        lambda: ra.__setitem__("s", ra["g"]["vals"][rb["idx"]] + 1.0),                     # reads the element through the other subscript
+        lambda: ra.__setitem__("f", ra["g"]["other"] * 3.0),                                # reads a sibling inside g
+        lambda: ra.__setitem__("w", ra["g"]["vals"][ra["g"]["idx"]] * 2.0),                 # reads the element through the subscript in g
+        lambda: rb.__setitem__("t", rb["idx"] * 2),                                         # depends on the other subscript only
+        lambda: mgr.register(xd.tasks.FunctionTask("obsI" + salt, lambda: ran.append("obsI"), set(), {rb["idx"]})),
+        lambda: mgr.register(xd.tasks.FunctionTask("obsG" + salt, lambda: ran.append("obsG"), set(), {ra["g"]})),
+    ]
+    for j in sc["order"]:
+        defs[j]()
+    target_of = {"s": "s", "f": "f", "w": "w", "t": "t"}
+    stats = {"subscript_scenarios": 1}
+    viol = None
+
+    def assign(which, value):
+        del ran[:]
+        keyref = rb["idx"] if which == "other" else ra["g"]["idx"]
+        tr, exc = run_traced(lambda: ra["g"]["vals"].__setitem__(keyref, value))
+        if isinstance(exc, SimStall):
+            raise exc
+        if exc is not None:
+            return None, exc
+        got = set(ran)
+        for ev in tr:
+            if ev[0] == "w" and ev[2] in target_of:
+                got.add(ev[2])
+        return got, None
+
+    plan = [("other", sc["v1"]), ("same", sc["v2"])]
+    if sc["first"] == "same":
+        plan.reverse()
+    found = []          # every assignment is judged; the most specific violation is reported (the known class last)
+    for which, value in plan:
+        got, exc = assign(which, value)
+        where = "a.g.vals[%s] = %r" % ("b.idx" if which == "other" else "a.g.idx", value)
+        viol = None
+        if exc is not None:
+            found.append(Violation(prop + ".subscript.exception", "%s raised %s: %s" % (where, type(exc).__name__, exc)))
+            break
+        # depends on vals / g (enclosing containers) or on the element: s, w, f (reads g.other: declared on g), obsG;
+        # the readers of a.g.idx are inside g as well (w).  t and obsI depend on b.idx only.
+        expected = {"s", "w", "f", "obsG"}
+        missing = sorted(expected - got)
+        outside = sorted(got - expected)
+        k = sc["k1"] if which == "other" else sc["k2"]
+        if list.__getitem__(vals, k) != value:
+            found.append(Violation(prop + ".subscript.content", "%s: element %d holds %r" % (where, k, list.__getitem__(vals, k))))
+        if missing:
+            found.append(Violation(prop + ".subscript.missing", "%s: task(s) %s depend on the element or on a container enclosing it and did not run (ran: %s)"
+                                   % (where, missing, sorted(got))))
+        if outside:
+            # subscript in another container: KF-3 (the unmodified code starts from the subscript's dependencies too);
+            # subscript inside g: nothing outside the set can be reached that way, so anything extra is something else
+            cls = ".subscript.outside" if which == "other" and set(outside) <= {"t", "obsI"} else ".subscript.outside_other"
+            found.append(Violation(prop + cls, "%s: task(s) %s ran although they depend only on the subscript, not on the assigned "
+                                   "location or a container enclosing it (ran: %s)" % (where, outside, sorted(got))))
+    viol = None
+    for v_ in found:
+        if viol is None or (viol.cls.endswith(".subscript.outside") and not v_.cls.endswith(".subscript.outside")):
+            viol = v_
+    return {"violation": (dict(viol.to_json(), step=None) if viol else None), "nontrivial": True, "stats": stats, "extra": {}, "trace_digest": "subscript"}
+
+
 def gen_collide_case(ctx, run, prop):
     r = rng_for(ctx.seed, prop, run, "collide")
     salt = "".join(r.choice("abcdefghijklmnopqrstuvwxyz") for _ in range(3))
